@@ -130,6 +130,20 @@ def config_constants(out):
     out.append(f"def defaultRwndThreshold : Nat := {const_nontest('DEFAULT_RWND_THRESHOLD')}")
     v = intlit(one(r"bind_buffer_size\s*:\s*(\d+)", body, "default bind_buffer_size"))
     out.append(f"def defaultBindBufferSize : Nat := {v}")
+    # the keepalive deadline (`last_pong_timestamp`) is refreshed by a received Pong only — the timing
+    # model has no other input (C16): every assignment must sit in the `Message::Pong` arm
+    task = strip_comments(read("penguin-mux/src/task.rs"))
+    writes = [m.start() for m in re.finditer(r"\*\s*self\s*\.\s*last_pong_timestamp\s*\.\s*lock\(\)\s*=", task)]
+    arm = re.search(r"Message::Pong\s*=>\s*\{", task)
+    if len(writes) != 1 or arm is None:
+        raise Broken(f"task.rs: expected exactly one assignment to last_pong_timestamp and a `Message::Pong => {{` arm, found {len(writes)} assignment(s)")
+    between = task[arm.end():writes[0]]
+    if writes[0] < arm.end() or "=>" in between or "}" in between:
+        raise Broken("task.rs: the assignment to last_pong_timestamp is not at the start of the `Message::Pong` arm")
+    if re.search(r"Message::Ping\s*\|\s*Message::Pong|Message::Pong\s*\|", task):
+        raise Broken("task.rs: the `Message::Pong` arm is shared with another message kind")
+    out.append("/-- the only assignment to `last_pong_timestamp` is the first statement of the `Message::Pong` arm -/")
+    out.append("def deadlineRefreshedByPongOnly : Bool := true")
 
 
 def socks_constants(out):
